@@ -11,8 +11,8 @@ enum { C_EVAL = 0, C_NONTRIV };
 typedef boost::adjacency_list<boost::vecS, boost::vecS, boost::undirectedS, boost::no_property, boost::property<boost::edge_weight_t, double>> Graph;
 
 struct ELine { char kind; int u, v; int wi; };            // wi indexes WTXT; 0 = omitted
-static const char *WTXT[] = {"", "1", "15", "2.5", "100", "0.125", "7"};
-static const double WVAL[] = {1, 1, 15, 2.5, 100, 0.125, 7};
+static const char *WTXT[] = {"", "1", "15", "2.5", "100", "1.5e1", "0.125", "7", "2.5E-1", "1e+2"};     // incl. exponent notation (what %g / operator<< print)
+static const double WVAL[] = {1, 1, 15, 2.5, 100, 15, 0.125, 7, 0.25, 100};
 static const char *COMMENT[] = {"", "c a comment line\n", "# e 1 2 3\n"};   // the '#' comment deliberately looks like an edge line
 
 struct Text { int n; std::vector<ELine> lines; std::vector<int> comments; bool final_newline; int decl_m; };
@@ -112,7 +112,7 @@ int main(int argc, char **argv) {
     }
     std::string mode = A.get("mode", "reader");
     int L = (int) A.geti("lines", 2);
-    int nw = (int) A.geti("nweights", 5);           // number of weight spellings used (prefix of WTXT)
+    int nw = (int) A.geti("nweights", 6);           // number of weight spellings used (prefix of WTXT)
     int maxv = (int) A.geti("maxv", 4);             // vertex names minv..maxv (declared n ranges over 0..3; names < 1 or > n are undeclared)
     int minv = (int) A.geti("minv", 0);
     int nv = maxv - minv + 1;
